@@ -101,9 +101,9 @@ def run(ctx):
     ctx.evidence(dict(
         evaluations=calls,
         distinct_nontrivial=fw.distinct_nontrivial(cases),
-        rule="sessions = New + <=25 calls; 406 sessions enumerated exhaustively whatever the seed (every ordered pair of check kinds at plan and at block level, "
+        rule="sessions = New + <=25 calls; 487 sessions enumerated exhaustively whatever the seed (every ordered pair of check kinds at plan and at block level, "
              "every kind of call at each of the 5 cursor positions, every invalid ChecksType at each position, every ordered pair first misuse kind x second misuse kind of the 17 kinds - 289 sessions - "
-             "in which the second misuse meets a builder already holding the first one's error; 12 sessions passing the same pointer to two Add* calls); then several builders alive at once with interleaved calls, each compared with the model of its own call list and no plan pointer emitted twice "
+             "in which the second misuse meets a builder already holding the first one's error; 12 sessions passing the same pointer to two Add* calls; 81 sessions with use after emit as the first misuse: every ordered pair of 9 call kinds after a successful Plan(), then Plan() again, a Reset and a second plan); then several builders alive at once with interleaved calls, each compared with the model of its own call list and no plan pointer emitted twice "
              "(family multi: the 6 orders of {a emits, a is Reset, b is created, b's first Add*} x 3 shapes, plus n/12 random interleavings of 2-3 ordinary sessions); then random families: 25% all-valid (valid prefix, Plan(), sometimes calls after it, sometimes Reset + second epoch), "
              "60% the same with 1-3 misuses, each of a uniformly chosen kind (later ones biased to nil arguments) inserted at a uniformly chosen applicable position, 5% invalid New, "
              "10% unbiased random call streams; evaluations = calls executed on the real builder and compared; "
